@@ -198,6 +198,7 @@ def build(threshold, cooldown):
     import lunar_interceptor.interceptor.traffic_filter as traffic_filter
     import lunar_interceptor.interceptor.hooks.requests as rhook
     fail_safe.time = lambda: Clock.now
+    rhook.sleep = lambda s: None  # waiting before a retry the gateway asked for costs no time here
     traffic_filter.gethostbyname = lambda h: {"api.public.test": "93.184.216.34"}[h]
     logger = logging.getLogger("verif-c19")
     logger.disabled = True
@@ -212,7 +213,11 @@ def build(threshold, cooldown):
     return fs, hook._hook_module()
 
 
-EVENTS = ["ok", "gw_conn_error", "gw_header_error", "app_exception_via_gateway", "app_exception_direct_only"]
+# gw_retry_then_ok / gw_retry_then_header_error: the gateway first answers "retry this call"
+# (x-lunar-retry-after + x-lunar-sequence-id); the second attempt of the same call then succeeds /
+# comes back with x-lunar-error (a gateway-side failure of this call)
+EVENTS = ["ok", "gw_conn_error", "gw_header_error", "app_exception_via_gateway", "app_exception_direct_only",
+          "gw_retry_then_ok", "gw_retry_then_header_error"]
 
 
 class AppError(Exception):
@@ -243,6 +248,12 @@ class Model:
             via = "gateway" if PROXY_HOST in url else "direct"
             attempts.append(via)
             if via == "gateway":
+                if outcome in ("gw_retry_then_ok", "gw_retry_then_header_error"):
+                    if attempts.count("gateway") == 1:
+                        return FakeResponse(200, {"x-lunar-retry-after": "0", "x-lunar-sequence-id": "seq-1"}, via)
+                    if outcome == "gw_retry_then_header_error":
+                        return FakeResponse(503, {"x-lunar-error": "2"}, via)
+                    return FakeResponse(200, {}, via)
                 if outcome == "gw_conn_error":
                     raise FakeConnectionError("proxy unreachable")
                 if outcome == "gw_header_error":
@@ -280,13 +291,13 @@ class Model:
         # error handling
         if used_gateway:
             self.ever_gateway += 1
-            if outcome in ("gw_conn_error", "gw_header_error"):
+            if outcome in ("gw_conn_error", "gw_header_error", "gw_retry_then_header_error"):
                 self.hi += 1
                 self.lo += 1
                 self.last_fail = now
                 if raised is not None:
                     return f"GATEWAY-ERROR-LEAKED {desc}: a gateway-side failure was raised into the application"
-                if attempts != ["gateway", "direct"]:
+                if attempts != ["gateway", "direct"] and not (outcome == "gw_retry_then_header_error" and attempts == ["gateway", "gateway", "direct"]):
                     return f"NO-FALLBACK {desc}: after a gateway-side failure the call must be sent directly to the provider"
             elif outcome == "app_exception_via_gateway":
                 if not isinstance(raised, AppError):
@@ -298,6 +309,8 @@ class Model:
                     return f"UNEXPECTED-ERROR {desc}: {raised!r}"
                 if outcome == "app_exception_direct_only" and attempts != ["gateway"]:
                     return f"UNEXPECTED-ROUTE {desc}"
+                if outcome == "gw_retry_then_ok" and attempts != ["gateway", "gateway"]:
+                    return f"RETRY-NOT-FOLLOWED {desc}: the gateway asked for a retry of the call"
         else:
             # bypassed: direct call only
             if outcome == "app_exception_direct_only":
@@ -384,6 +397,7 @@ def private_or_loopback(ip):
 def traffic_filter_product(run):
     import socket
     import lunar_interceptor.interceptor.traffic_filter as traffic_filter
+    import lunar_interceptor.interceptor.configuration as configuration
 
     def fake_resolve(host):
         if host in DNS:
@@ -399,7 +413,18 @@ def traffic_filter_product(run):
     for allow in LISTS:
         for block in LISTS:
             try:
-                tf = traffic_filter.TrafficFilter(block, allow, logger)
+                # the lists reach the filter the way the package wires them: through the two
+                # environment variables and the configuration loader (lunar_interceptor/__init__.py:
+                # _build_traffic_filter_from_env_vars)
+                for var, val in (("LUNAR_ALLOW_LIST", allow), ("LUNAR_BLOCK_LIST", block)):
+                    if val is None:
+                        os.environ.pop(var, None)
+                    else:
+                        os.environ[var] = val
+                os.environ["LUNAR_PROXY_HOST"] = f"{PROXY_HOST}:8000"
+                importlib.reload(configuration)
+                icfg = configuration.get_interceptor_config(logger)
+                tf = traffic_filter.TrafficFilter(icfg.traffic_filter.block_list, icfg.traffic_filter.allow_list, logger)
             except BaseException as e:  # noqa
                 run.violation("FILTER-CONSTRUCTOR-RAISED", f"TrafficFilter(block={block!r}, allow={allow!r}) raised {e!r}", {"allow": allow, "block": block})
                 continue
